@@ -29,6 +29,11 @@ def validId (rid : Nat) : Bool :=
   rid ≠ 0 ∧ rid ≠ 4294967295 ∧ ¬ (224 ≤ rid / 16777216 ∧ rid / 16777216 ≤ 239)
 def asOk (cfg : Cfg) (asn : Nat) : Bool := cfg.expectedAsn = 0 ∨ cfg.expectedAsn = asn
 
+/-- NOTIFICATIONs that apply to an OPEN refused before it reaches the FSM: Unacceptable Hold Time
+    (2,6), Bad BGP Identifier (2,3). -/
+def applicable (o : RawOpen) : List Notif :=
+  (if validHold o.hold then [] else [(2, 6)]) ++ (if validId o.rid then [] else [(2, 3)])
+
 /-- What must be visible in the outputs of a step. -/
 inductive Expect where
   | quiet                      -- no SessionDown, no state change
@@ -41,7 +46,7 @@ inductive Expect where
   | downHold
   | downIo
   | downAdmin
-  | parseRejected (n : Notif)
+  | parseRejected (ns : List Notif)   -- refused before the FSM: any NOTIFICATION that applies
   deriving DecidableEq, Repr
 
 def outsOf : Obs → List POut
@@ -109,8 +114,8 @@ def sees (r : Role) (obs : Obs) : Expect → Bool
       (match obs with | .fsm _ => true | _ => false)
       && (outsOf obs).contains (POut.conn r (.down .adminShutdown (some (6, 2))))
       && hasIdle r (outsOf obs) && !hasEstablishedOut (outsOf obs)
-  | .parseRejected n =>
-      (match obs with | .parseReject n' _ => n' = n | _ => false)
+  | .parseRejected ns =>
+      (match obs with | .parseReject n' _ => ns.contains n' | _ => false)
       && !hasEstablishedOut (outsOf obs)
 
 /-- The reference transition: next states and what must be seen.
@@ -123,8 +128,9 @@ def next (cfg : Cfg) (r : Role) (s : S) (ev : Ev) : S × Expect :=
   | .input (.connected _) =>
       if cur = .idle then (s.set r .openSent, .sentOpen) else (s, .rejectNew)
   | .rawOpen o =>
-      if ¬ validHold o.hold then (s.set r .idle, .parseRejected (2, 6))
-      else if ¬ validId o.rid then (s.set r .idle, .parseRejected (2, 3))
+      -- an OPEN unacceptable for several reasons may be refused with any NOTIFICATION that applies
+      -- (the order of the checks inside the parser is not the property's business)
+      if ¬ validHold o.hold ∨ ¬ validId o.rid then (s.set r .idle, .parseRejected (applicable o))
       else if cur = .idle then (s, .quiet)
       else if cur ≠ .openSent then unexpected
       else if ¬ asOk cfg o.asn then (s.set r .idle, .downLocal (2, 2))
